@@ -7,7 +7,7 @@ use crate::comp_exch::*;
 use crate::util::*;
 use alator::broker::uist::{UistBroker, UistBrokerBuilder};
 use alator::broker::*;
-use futures::executor::block_on;
+use crate::util::drive as block_on;
 use rotala::http::uist::AppState;
 use rotala::input::penelope::Penelope;
 use serde_json::{json, Value};
